@@ -109,6 +109,8 @@ def run(ck):
         groups.setdefault(h, []).append(l)
     out = {}
     from concurrent.futures import ThreadPoolExecutor
+    env = dict(env, WV_COUNT_FDS="1")
+
     def one(g):
         return wv.run_lines([exe], g, shards=1, env=env)
     with ThreadPoolExecutor(max_workers=wv.NCPU) as ex:
@@ -131,6 +133,12 @@ def run(ck):
             distinct.add((kind, i, tuple(f for f in fields if "{D}" not in f and len(f) < 40)))
             alone = out.get("a%d_%d" % (h, i), "(no output)")
             inhist = parts[i] if i < len(parts) else "(missing: the history died: %s)" % got[:60]
+            fa, fh = split_impl(alone)[1].get("fds"), split_impl(inhist)[1].get("fds")
+            if canon(inhist, kind) == canon(alone, kind) and fa is not None and fh is not None and fa != fh:
+                ck.violation("after operation %d (%s) of a history %s descriptors are open, after the same operation alone in a fresh process %s: an earlier operation left a file handle open (a long enough history runs out of descriptors)" % (i, kind, fh, fa),
+                             {"class": None, "history": [" ".join(f) for f, _ in ops], "position": i, "kind": kind, "open_descriptors_in_history": fh, "open_descriptors_alone": fa, "driver_flags": ck.impl_flags,
+                              "replay": "WV_COUNT_FDS=1; feed 'h hist op;op;...' and each op alone to harness/drv.cpp built against /repo: compare the fds= fields"})
+                break
             if canon(inhist, kind) != canon(alone, kind):
                 ck.violation("operation %d (%s) of a history gives a different result than alone in a fresh process: in history '%s', alone '%s'" % (i, kind, canon(inhist, kind)[:60], canon(alone, kind)[:60]),
                              {"class": None, "history": [" ".join(f) for f, _ in ops], "position": i, "kind": kind, "in_history": inhist[:500], "alone": alone[:500], "driver_flags": ck.impl_flags,
